@@ -12,7 +12,10 @@ import (
 	abci "github.com/cometbft/cometbft/abci/types"
 	"pgregory.net/rapid"
 
+	beacontypes "github.com/unification-com/mainchain/x/beacon/types"
+	enttypes "github.com/unification-com/mainchain/x/enterprise/types"
 	streamtypes "github.com/unification-com/mainchain/x/stream/types"
+	wrkchaintypes "github.com/unification-com/mainchain/x/wrkchain/types"
 
 	"verifharness/lab"
 )
@@ -77,6 +80,17 @@ func replayRecording(rec *Recording, opts lab.NodeOpts, withCrashes bool, label 
 		if withCrashes {
 			crash = blk.Crash
 		}
+		if opts.Noise >= 1 {
+			// a node with a mempool has seen (and checked) every transaction before it is proposed in a block
+			for k, tx := range blk.Txs {
+				b.CheckTx(tx.Bytes)
+				stats["noise-checktx"]++
+				if opts.Noise >= 2 && (bi+k)%3 == 0 {
+					b.Simulate(tx.Bytes)
+					stats["noise-simulate"]++
+				}
+			}
+		}
 		for attempt := 0; attempt < 2; attempt++ {
 			t := time.UnixMilli(blk.TimeMs).UTC()
 			if _, pan := b.BeginBlockAt(t); pan != nil {
@@ -111,6 +125,14 @@ func replayRecording(rec *Recording, opts lab.NodeOpts, withCrashes bool, label 
 					}
 					return fmt.Sprintf("%s: tx %d of block %d: result (code %d/%s, data %x, gas %d/%d) differs from the reference node's (code %d/%s, data %x, gas %d/%d)", label, k, bi,
 						got.Code, got.Codespace, got.Data, got.GasWanted, got.GasUsed, tx.Res.Code, tx.Res.Codespace, tx.Res.Data, tx.Res.GasWanted, tx.Res.GasUsed), stats
+				}
+				if opts.Noise >= 2 && (bi+k)%2 == 0 {
+					// client and mempool activity while the block executes
+					b.ReCheckTx(tx.Bytes)
+					if k+1 < len(blk.Txs) {
+						b.Simulate(blk.Txs[k+1].Bytes)
+					}
+					stats["noise-inblock"]++
 				}
 				if crash == 2 && k == blk.CrashK%len(blk.Txs) {
 					crash = 0
@@ -161,10 +183,30 @@ func replayRecording(rec *Recording, opts lab.NodeOpts, withCrashes bool, label 
 				var resp streamtypes.QueryStreamsResponse
 				_ = b.Query(qStr+"Streams", &streamtypes.QueryStreamsRequest{}, &resp)
 			}
+			if opts.Noise >= 2 {
+				noiseQueries(b)
+				for _, tx := range blk.Txs {
+					b.ReCheckTx(tx.Bytes) // the mempool re-validates what it still holds after every commit
+				}
+				stats["noise-after-commit"]++
+			}
 			break
 		}
 	}
 	return "", stats
+}
+
+// noiseQueries: read-only client traffic of all four modules on committed state.
+func noiseQueries(b *lab.Chain) {
+	_ = b.Query(qEnt+"EnterpriseUndPurchaseOrders", &enttypes.QueryEnterpriseUndPurchaseOrdersRequest{}, &enttypes.QueryEnterpriseUndPurchaseOrdersResponse{})
+	_ = b.Query(qEnt+"TotalLocked", &enttypes.QueryTotalLockedRequest{}, &enttypes.QueryTotalLockedResponse{})
+	_ = b.Query(qEnt+"EnterpriseSupply", &enttypes.QueryEnterpriseSupplyRequest{}, &enttypes.QueryEnterpriseSupplyResponse{})
+	_ = b.Query(qEnt+"Whitelist", &enttypes.QueryWhitelistRequest{}, &enttypes.QueryWhitelistResponse{})
+	_ = b.Query("/mainchain.wrkchain.v1.Query/WrkChainsFiltered", &wrkchaintypes.QueryWrkChainsFilteredRequest{}, &wrkchaintypes.QueryWrkChainsFilteredResponse{})
+	_ = b.Query("/mainchain.wrkchain.v1.Query/WrkChainStorage", &wrkchaintypes.QueryWrkChainStorageRequest{WrkchainId: 1}, &wrkchaintypes.QueryWrkChainStorageResponse{})
+	_ = b.Query("/mainchain.beacon.v1.Query/BeaconsFiltered", &beacontypes.QueryBeaconsFilteredRequest{}, &beacontypes.QueryBeaconsFilteredResponse{})
+	_ = b.Query("/mainchain.beacon.v1.Query/BeaconStorage", &beacontypes.QueryBeaconStorageRequest{BeaconId: 1}, &beacontypes.QueryBeaconStorageResponse{})
+	_ = b.Query(qStr+"Streams", &streamtypes.QueryStreamsRequest{}, &streamtypes.QueryStreamsResponse{})
 }
 
 // recordCase runs the scenario on the reference node A (MemDB, never stopped) and records it.
@@ -218,6 +260,7 @@ func genNodeOpts(t *rapid.T) lab.NodeOpts {
 		IAVLCache:       pick(t, []int{0, 1, 100, 1000000}, "iavlCache"),
 		FastNodeOff:     uni(t, 2, "fastnodeOff") == 1,
 		InterBlockCache: uni(t, 2, "interBlockCache") == 1,
+		Noise:           pick(t, []int{0, 1, 2, 2}, "noise"),
 	}
 }
 
@@ -259,6 +302,7 @@ func runC01(s *Scenario, opts lab.NodeOpts, ev *Evidence) []Finding {
 			ev.Count("c01."+k, v)
 		}
 		ev.Count("c01.nodeB.db."+opts.DB, 1)
+		ev.Count(fmt.Sprintf("c01.nodeB.noise.%d", opts.Noise), 1)
 		nt := w.Classes["c01.ok-custom-tx"] > 0 && w.Classes["c01.failed-tx"] > 0 && (stats["restarts-after-tx"] > 0 || opts.DB != "mem" || opts.Pruning != "default")
 		ev.Eval(s.Hash(), nt)
 		if wantTrace && msg == "" {
